@@ -332,7 +332,17 @@ func parent(env hres.Env) *hres.Result {
 		fmt.Sprintf("VERIF_BUDGET_S=%d", int(time.Until(env.Deadline).Seconds())))
 	logf, _ := os.Create(filepath.Join(scratch, "child.log"))
 	cmd.Stdout, cmd.Stderr = logf, logf
-	err := cmd.Run()
+	err := cmd.Start()
+	if err == nil {
+		done := make(chan error, 1)
+		go func() { done <- cmd.Wait() }()
+		select {
+		case err = <-done:
+		case <-time.After(time.Until(env.Deadline) + 5*time.Minute):
+			cmd.Process.Kill() // the child overran its own soft deadline by far: a broken check, not a verdict
+			err = <-done
+		}
+	}
 	logf.Close()
 	b, rerr := os.ReadFile(out)
 	if rerr != nil {
